@@ -2244,7 +2244,13 @@ class AddPrefixSeries(Elemwise):
     _filter_passthrough = True
 
     def _divisions(self):
-        return tuple(self.prefix + str(division) for division in self.frame.divisions)
+        # Only for string labels does the order survive the prefix
+        if not all(isinstance(division, str) for division in self.frame.divisions):
+            return (None,) * (self.frame.npartitions + 1)
+        divisions = tuple(self.prefix + division for division in self.frame.divisions)
+        if not valid_divisions(divisions):
+            return (None,) * (self.frame.npartitions + 1)
+        return divisions
 
 
 class AddSuffixSeries(AddPrefixSeries):
@@ -2252,7 +2258,9 @@ class AddSuffixSeries(AddPrefixSeries):
     operation = M.add_suffix
 
     def _divisions(self):
-        return tuple(str(division) + self.suffix for division in self.frame.divisions)
+        # A suffix does not keep the order of the labels ("a" < "ab", but
+        # "a_x" > "ab_x")
+        return (None,) * (self.frame.npartitions + 1)
 
 
 class AddPrefix(Elemwise):
